@@ -350,7 +350,20 @@ func c20Enc(v starlark.Value) (o obj) {
 		return obj{"t": "enum", "nil": false, "n": encBig(big.NewInt(int64(v.Desc.Number()))), "name": byteArr(string(v.Desc.Name())),
 			"ty": byteArr(string(v.Desc.Parent().FullName()))}
 	case *starlarkproto.Message:
-		return obj{"t": "msg", "s": byteArr(v.String())}
+		// structural: type name and the fields that are set, in declaration order
+		d := v.Message().ProtoReflect().Descriptor()
+		th := &starlark.Thread{Name: "c20enc"}
+		has := starlarkproto.Module.Members["has"].(*starlark.Builtin)
+		fs := [][]any{}
+		for i := 0; i < d.Fields().Len(); i++ {
+			name := string(d.Fields().Get(i).Name())
+			if r, err := starlark.Call(th, has, starlark.Tuple{v, starlark.String(name)}, nil); err == nil && r == starlark.True {
+				if x, err := v.Attr(name); err == nil && x != nil {
+					fs = append(fs, []any{byteArr(name), c20Enc(x)})
+				}
+			}
+		}
+		return obj{"t": "msg", "ty": byteArr(string(d.FullName())), "f": fs}
 	case *starlarkproto.RepeatedField:
 		xs := []obj{}
 		for i := 0; i < v.Len(); i++ {
